@@ -85,6 +85,9 @@ def stmt_term(s, in_sub):
         return ["Pop", ["Load", "a"]]
     if k == "Lb":
         return ["Pop", ["Load", "b"]]
+    if k == "Ia":
+        # the variable's slot INDEX is taken (DynamicScratchVar.set_index): neither a store nor a load of it
+        return ["DynIndex", "a"]
     if k == "tick":
         return ["TickS", 1]
     if k == "break":
@@ -173,7 +176,7 @@ def uninit_vars(body, lenient=False):
         if k in ("La", "Lb"):
             load(k[1].lower(), states)
             return states, set(), set()
-        if k == "tick":
+        if k in ("tick", "Ia"):
             return states, set(), set()
         if k == "break":
             return (set(states) if lenient else set()), set(states), set()
